@@ -237,14 +237,24 @@ def clause_layering(prog, rep):
     rep.check(not bad, "lock-order", "storage-never-calls-up", "storage code never calls back into mdk-core / bindings: the lock order (bindings mutex -> snapshot-manager mutex -> storage locks) is acyclic",
               "storage code calls up into %s: lock-order cycle possible" % bad[:3])
     # the manager holds its mutex while calling storage, never the reverse: storage crates have no reference to the manager
-    mg = [f for f in prog.nontest_fns(("mdk_core",)) if last_seg(f.self_adt) == "EpochSnapshotManager"]
+    mg = [f for f in prog.nontest_fns(("mdk_core",)) if last_seg(f.self_adt) == "EpochSnapshotManager" or (f.is_closure() and "EpochSnapshotManager" in (f.root or ""))]
+    mgp = set(f.path for f in mg)
+    # manager functions that take the manager's mutex themselves or through another manager function
+    locking = set(f.path for f in mg if any(is_acq(c) for c in f.live_calls()))
+    changed = True
+    while changed:
+        changed = False
+        for f in mg:
+            if f.path not in locking and any(t.path in locking for c in f.live_calls() for t in prog.call_targets(c)):
+                locking.add(f.path)
+                changed = True
     nested = 0
     for f in mg:
         for c in f.live_calls():
             if is_acq(c):
                 region, _ = live_region(f, c)
                 for x in f.live_calls():
-                    if x.bb in region and x is not c and is_acq(x):
+                    if x.bb in region and x is not c and (is_acq(x) or any(t.path in locking and t.path in mgp for t in prog.call_targets(x))):
                         nested += 1
     rep.check(nested == 0, "lock-order", "manager-mutex-not-reentered", "the snapshot manager never re-locks its own mutex while holding it",
               "the snapshot manager acquires its mutex %d time(s) while already holding it (std::sync::Mutex is not reentrant)" % nested)
